@@ -86,23 +86,17 @@ Record collapsed := mkC { ctab : table; cdiv : list Z }.
 (* {'collapsed_ids': [ids]} ; the harness turns the codes back into the id texts *)
 Definition collapsed_md (ids : list Z) : Tree := L [I 7; L (map I ids)].
 
-(* one-to-one, table.py:2805-2826 (rows).  When no group is kept, collapsed_data is the empty
-   list, _to_sparse gives a 0 x 0 matrix (table.py:616-620 without a shape) and the final
-   constructor refuses it because the other axis still has its ids (err.py size tests):
-   TableException. *)
+(* one-to-one, table.py:2819-2851 (rows).  When no group is kept the result is the empty table
+   over the complete other axis (the matrix gets the shape (n_other, 0) resp. (0, n_other)). *)
 Definition collapse_rows (o : table) (labels : list Z) (norm : bool) (min_group : Z) (incl_md : bool)
-  : result collapsed :=
+  : collapsed :=
   let gs := filter (fun g => Z.leb min_group (Z.of_nat (length (snd g)))) (groups labels (vrecs o) false) in
   let rows := map (fun g => col_sums (nsamp o) (map v_row (snd g))) gs in
   let mds := map (fun g => collapsed_md (map v_id (snd g))) gs in
   let divs := map (fun g => if norm then Z.of_nat (length (snd g)) else 1%Z) gs in
-  match gs, sids o with
-  | [], _ :: _ => RErr E_TABLE
-  | _, _ =>
-    ROk (mkC (mkT (map fst gs) (sids o) rows (if incl_md then ctor_md (Some mds) else None)
-                  (ctor_md (smd o)) (ttype o))
-             divs)
-  end.
+  mkC (mkT (map fst gs) (sids o) rows (if incl_md then ctor_md (Some mds) else None)
+           (ctor_md (smd o)) (ttype o))
+      divs.
 
 (* one-to-many, table.py:2700-2803.  Per vector the harness supplies the (pathway, group)
    pairs its generator yields and whether the generator ends with an IndexError. *)
@@ -178,9 +172,6 @@ Definition collapse_t (t : table) (a : axis) (m : collapse_mode) (norm incl_md :
     | OneToOne lab min_group =>
         match lab_error lab with
         | Some c => RErr c
-        | None => match collapse_rows o (labels_of lab (oids o)) norm min_group incl_md with
-                  | ROk c => ROk (back c)
-                  | RErr e => RErr e
-                  end
+        | None => ROk (back (collapse_rows o (labels_of lab (oids o)) norm min_group incl_md))
         end
     end.
